@@ -1301,6 +1301,8 @@ isal_deflate_reset_dict(struct isal_zstream *stream, struct isal_dict *dict)
 {
         struct isal_zstate *state = &stream->internal_state;
         struct level_buf *level_buf = (struct level_buf *) stream->level_buf;
+        uint16_t *hash_table;
+        size_t hash_size, i;
         int ret;
 
         if ((state->state != ZSTATE_NEW_HDR) ||
@@ -1320,22 +1322,30 @@ isal_deflate_reset_dict(struct isal_zstream *stream, struct isal_dict *dict)
 
         switch (stream->level) {
         case 3:
-                memcpy(level_buf->lvl3.hash_table, dict->hashtable,
-                       sizeof(level_buf->lvl3.hash_table));
+                hash_table = level_buf->lvl3.hash_table;
+                hash_size = sizeof(level_buf->lvl3.hash_table);
                 break;
 
         case 2:
-                memcpy(level_buf->lvl2.hash_table, dict->hashtable,
-                       sizeof(level_buf->lvl2.hash_table));
+                hash_table = level_buf->lvl2.hash_table;
+                hash_size = sizeof(level_buf->lvl2.hash_table);
                 break;
         case 1:
-                memcpy(level_buf->lvl1.hash_table, dict->hashtable,
-                       sizeof(level_buf->lvl1.hash_table));
+                hash_table = level_buf->lvl1.hash_table;
+                hash_size = sizeof(level_buf->lvl1.hash_table);
                 break;
         default:
-                memcpy(stream->internal_state.head, dict->hashtable,
-                       sizeof(stream->internal_state.head));
+                hash_table = stream->internal_state.head;
+                hash_size = sizeof(stream->internal_state.head);
         }
+        memcpy(hash_table, dict->hashtable, hash_size);
+
+        /* isal_deflate_process_dict() hashed the dictionary as if it ended at
+         * input position 0. When the dictionary is installed after a flush in
+         * the middle of a stream, move the entries to the current position. */
+        if (stream->total_in != 0)
+                for (i = 0; i < hash_size / sizeof(uint16_t); i++)
+                        hash_table[i] += (uint16_t) stream->total_in;
 
         return COMP_OK;
 }
